@@ -1,7 +1,305 @@
-/- C07 — statements under construction -/
-import AgpTpf.Model.Remap
+/-
+  C07 — Every join carries a gap and retained neighbours keep their input gap.
+
+  PROVED here (all-inputs clauses, each at full strength for its stage; no `_partial` theorems):
+    `append_adjacent`            `append_scaffold(othr, gap)`: with a gap and a non-empty receiver the seam carries exactly that
+                                 gap row and NO fragment–fragment adjacency is created; without a gap the only new adjacency
+                                 is (last row, first row) when both are fragments.
+    `gap_before_leftover_none_iff` / `gap_before_leftover_source`
+                                 the left-over join is gapless only when the last built row is the facing end of the recorded
+                                 input predecessor and the input had no gap there; any gap returned is the join gap or the
+                                 recorded input gap.
+    `input_predecessor_no_gap`   a recorded predecessor without gap is the fragment row directly in front (input adjacency).
+    `no_terminal_gaps_discard_start` / `_end`
+                                 `discard_start`/`discard_end` pop all following gaps: never a gap as first/last row, the
+                                 other end untouched, only gap rows and the one discarded row are removed.
+    `to_scaffold_adjacent`       `to_scaffold` of a result keeps exactly the adjacencies of its rows (mirrored for a minus bait).
+    `fuse_adjacent`              in every fused scaffold a gapless fragment–fragment adjacency is an adjacency inside one
+                                 part, or a left-over seam whose two ends were adjacent in the input (or there is no join gap).
+    `fuse_no_terminal_gaps`      if no part begins/ends with a gap, no fused scaffold does (and none is empty).
+    `leftover_adjacent`          left-over scaffolds: adjacencies ⊆ input adjacencies; separators = input gap in front / join gap;
+                                 no terminal gaps  (from C01 S4).
+    `remap_no_terminal_gaps`     END TO END, all inputs: whenever `remap` completes, no scaffold of any output assembly begins or
+                                 ends with a gap (invariant carried through find_overlaps, trim_large_overhangs, the resolver,
+                                 cutting, left-overs, fusing and the final distribution/renaming/sorting).
+  STILL MISSING for the end-to-end form of the FIRST clause (adjacency only if adjacent in the input) over `remap`:
+  an invariant relating the rows of stored results to the input rows up to the coordinate changes `trim_fragment`
+  makes (the stored rows are contiguous input slices: `C01.find_assembly_overlaps_registry`; the resolver only removes
+  rows at the ends; cutting rewrites end fragments) — the per-stage statements above are what that proof would chain;
+  and the PretextView-only clause "a junction between non-neighbours always uses the join gap", which needs the
+  generator model of PretextView maps (not part of the Lean model).
+-/
+import AgpTpf.Proofs.C07Lemmas
+import AgpTpf.Proofs.C07Pipeline
 namespace AgpTpf.C07
 open AgpTpf
-theorem appendRows_nil (rows : List Row) (g : Option Gap) : Scaffold.appendRows [] rows g = rows := by
+open AgpTpf.C01 (fuseByName_all adjPairs_appendRows noTerminalGap_appendRows missingRows_spec GapOK)
+
+/-! ## `append_scaffold` -/
+
+/-- With a gap and a non-empty receiver, the junction carries exactly the gap `g`, and the gapless adjacencies of the
+    result are those of the two parts: none is created across the seam.  (With an empty receiver the result is `othr`.) -/
+theorem append_adjacent (rows othr : List Row) (g : Gap) (hne : rows ≠ []) :
+    Scaffold.appendRows rows othr (some g) = rows ++ [Row.gap g] ++ othr ∧
+    adjPairs (Scaffold.appendRows rows othr (some g)) = adjPairs rows ++ adjPairs othr := by
+  constructor
+  · unfold Scaffold.appendRows
+    simp only
+    rw [if_neg]; simpa using hne
+  · simpa using adjPairs_appendRows rows othr (some g)
+
+theorem append_empty_receiver (othr : List Row) (g : Option Gap) : Scaffold.appendRows [] othr g = othr := by
   cases g <;> simp [Scaffold.appendRows]
+
+/-- Without a gap the seam is gapless: the result is the concatenation, and the only new adjacency is
+    (last row of `rows`, first row of `othr`) when both are fragments. -/
+theorem append_adjacent_none (rows othr : List Row) :
+    Scaffold.appendRows rows othr none = rows ++ othr ∧
+    adjPairs (Scaffold.appendRows rows othr none) = adjPairs rows ++ seam rows othr ++ adjPairs othr :=
+  ⟨rfl, adjPairs_appendRows rows othr none⟩
+
+theorem mem_seam_iff (l r : List Row) (a b : Fragment) :
+    (a, b) ∈ seam l r ↔ l.getLast? = some (.frag a) ∧ r.head? = some (.frag b) := by
+  unfold seam
+  split
+  · next a' b' h1 h2 =>
+    rw [h1, h2]; simp only [List.mem_cons, Prod.mk.injEq, List.not_mem_nil, or_false, Option.some.injEq, Row.frag.injEq]
+    constructor <;> (rintro ⟨rfl, rfl⟩; exact ⟨rfl, rfl⟩)
+  · next hno =>
+    constructor
+    · intro h; cases h
+    · rintro ⟨h1, h2⟩; exact absurd h2 (hno a b h1)
+
+private def f1 : Fragment := { oid := 1, name := ['a'], start := 1, stop := 10, strand := 1 }
+private def f2 : Fragment := { oid := 2, name := ['a'], start := 11, stop := 20, strand := 1 }
+private def f3 : Fragment := { oid := 3, name := ['b'], start := 1, stop := 5, strand := -1 }
+private def jg : Gap := { length := 200, gapType := "scaffold".toList }
+private def g7 : Gap := { length := 7, gapType := ['u'] }
+example : adjPairs (Scaffold.appendRows [.frag f1, .frag f2] [.frag f3] (some jg)) = [(f1, f2)] ∧
+    adjPairs (Scaffold.appendRows [.frag f1, .frag f2] [.frag f3] none) = [(f1, f2), (f2, f3)] := by decide
+
+/-! ## `gap_before_leftover` and `input_predecessor` -/
+
+/-- closed form of `gap_before_leftover` -/
+theorem gap_before_leftover_eq (joinGap : Option Gap) (built : List Row) (pred : Option (Fragment × Option Gap)) :
+    gapBeforeLeftover joinGap built pred =
+      match pred, built.getLast? with
+      | some (prev, gap), some (.frag last) => if FacingEnd last prev then gap else joinGap
+      | _, _ => joinGap :=
+  gapBeforeLeftover_eq joinGap built pred
+
+/-- With a join gap configured, a left-over scaffold is appended WITHOUT a gap only when the last built row is the
+    facing end of its recorded input predecessor and the input had no gap between them. -/
+theorem gap_before_leftover_none_iff (j : Gap) (built : List Row) (pred : Option (Fragment × Option Gap)) :
+    gapBeforeLeftover (some j) built pred = none ↔
+      ∃ prev last, pred = some (prev, none) ∧ built.getLast? = some (.frag last) ∧ FacingEnd last prev :=
+  gapBeforeLeftover_none_iff j built pred
+
+/-- any gap it returns is the join gap or the recorded input gap -/
+theorem gap_before_leftover_source (joinGap : Option Gap) (built : List Row) (pred : Option (Fragment × Option Gap))
+    (g : Gap) (h : gapBeforeLeftover joinGap built pred = some g) :
+    joinGap = some g ∨ ∃ prev, pred = some (prev, some g) :=
+  gapBeforeLeftover_source joinGap built pred g h
+
+/-- `input_predecessor(scaffold, i)` records no gap only if the row directly in front of row `i` is that fragment:
+    the two contigs were directly adjacent in the input. -/
+theorem input_predecessor_no_gap (rows : List Row) (i : Nat) (f : Fragment)
+    (h : inputPredecessor rows i = some (f, none)) (hi : i ≤ rows.length) :
+    0 < i ∧ rows[i - 1]? = some (.frag f) :=
+  inputPredecessor_none_gap rows i f h hi
+
+example : gapBeforeLeftover (some jg) [.frag f1] (some (f1, none)) = none ∧
+    gapBeforeLeftover (some jg) [.frag f1] (some (f1, some g7)) = some g7 ∧
+    gapBeforeLeftover (some jg) [.frag f2] (some (f1, none)) = some jg ∧
+    gapBeforeLeftover (some jg) [.frag f1, .gap g7] (some (f1, none)) = some jg ∧
+    inputPredecessor [.frag f1, .frag f2] 1 = some (f1, none) ∧
+    inputPredecessor [.frag f1, .gap g7, .frag f2] 2 = some (f1, some g7) := by decide
+
+/-! ## `discard_start` / `discard_end` -/
+
+/-- `discard_start`: the remaining rows are a proper suffix of the old rows that does not begin with a gap; everything
+    removed after the first row is a gap; a non-gap last row stays the last row (or nothing is left). -/
+theorem no_terminal_gaps_discard_start (o o' : OverlapResult) (h : o.discardStart = .ok o') :
+    (∀ g, o'.rows.head? ≠ some (.gap g)) ∧
+    o'.rows <:+ o.rows ∧ o'.rows.length < o.rows.length ∧
+    (∀ x ∈ (o.rows.drop 1).take (o.rows.length - 1 - o'.rows.length), ∃ g, x = Row.gap g) ∧
+    ((∀ g, o.rows.getLast? ≠ some (.gap g)) → ∀ g, o'.rows.getLast? ≠ some (.gap g)) := by
+  obtain ⟨d, r, hr, hr'⟩ := discardStart_rows o o' h
+  obtain ⟨p1, p2, p3⟩ := popLeadingGaps_spec r (o.start + d.length)
+  rw [hr, hr']
+  have hsuf : (OverlapResult.popLeadingGaps r (o.start + d.length)).1 <:+ d :: r := p2.trans (List.suffix_cons _ _)
+  refine ⟨p1, hsuf, ?_, ?_, ?_⟩
+  · have := p2.length_le; simp only [List.length_cons]; omega
+  · simpa using p3
+  · intro hlast g hg
+    by_cases hne : (OverlapResult.popLeadingGaps r (o.start + d.length)).1 = []
+    · rw [hne] at hg; cases hg
+    · rw [suffix_getLast? hsuf hne] at hg; exact hlast g hg
+
+/-- `discard_end`: the mirror image. -/
+theorem no_terminal_gaps_discard_end (o o' : OverlapResult) (h : o.discardEnd = .ok o') :
+    (∀ g, o'.rows.getLast? ≠ some (.gap g)) ∧
+    o'.rows <+: o.rows ∧ o'.rows.length < o.rows.length ∧
+    (∀ x ∈ (o.rows.drop o'.rows.length).take (o.rows.length - 1 - o'.rows.length), ∃ g, x = Row.gap g) ∧
+    ((∀ g, o.rows.head? ≠ some (.gap g)) → ∀ g, o'.rows.head? ≠ some (.gap g)) := by
+  obtain ⟨d, r, hr, hr'⟩ := discardEnd_rows o o' h
+  obtain ⟨p1, p2, p3⟩ := popLeadingGaps_spec r d.length
+  have hrows : o.rows = (d :: r).reverse := by rw [← hr, List.reverse_reverse]
+  rw [hr', hrows]
+  have hsuf : (OverlapResult.popLeadingGaps r d.length).1 <:+ d :: r := p2.trans (List.suffix_cons _ _)
+  have hpre : (OverlapResult.popLeadingGaps r d.length).1.reverse <+: (d :: r).reverse := List.reverse_prefix.mpr hsuf
+  refine ⟨?_, hpre, ?_, ?_, ?_⟩
+  · intro g; rw [List.getLast?_reverse]; exact p1 g
+  · have := p2.length_le; simp only [List.length_reverse, List.length_cons]; omega
+  · -- the removed rows between the kept prefix and the discarded last row are the popped gaps
+    revert p3 hpre hsuf p1
+    generalize (OverlapResult.popLeadingGaps r d.length).1 = K at *
+    intro p1 p3 _ _
+    obtain ⟨pre, rfl⟩ := p2
+    rw [take_sub_suffix] at p3
+    exact discardEnd_removed d pre K p3
+  · intro hhead g hg
+    by_cases hne : (OverlapResult.popLeadingGaps r d.length).1.reverse = []
+    · rw [hne] at hg; cases hg
+    · rw [prefix_head? hpre hne] at hg; exact hhead g hg
+
+/-! ## `to_scaffold` -/
+
+/-- `OverlapResult.to_scaffold`: for a plus/unstranded bait the rows are unchanged; for a minus bait the adjacencies are
+    exactly the mirrored ones (order and strands reversed): nothing is created or lost. -/
+theorem to_scaffold_adjacent (o : OverlapResult) :
+    adjPairs o.toScaffoldRows =
+      if o.bait.strand = -1 then (adjPairs o.rows).reverse.map mirror else adjPairs o.rows := by
+  unfold OverlapResult.toScaffoldRows
+  split
+  · exact adjPairs_reverse_map _
+  · rfl
+
+/-! ## fused scaffolds -/
+
+/-- where a gapless fragment–fragment adjacency of a fused scaffold can come from -/
+def AdjSrc (b : Build) (pr : Fragment × Fragment) : Prop :=
+  (∃ r ∈ b.store, r.added = true ∧ pr ∈ adjPairs r.o.toScaffoldRows) ∨
+  (∃ e ∈ b.extra, pr ∈ adjPairs e.1.rows) ∨
+  b.joinGap = none ∨
+  (∃ e ∈ b.extra, ∃ prev, e.2 = some (prev, none) ∧ FacingEnd pr.1 prev ∧ e.1.rows.head? = some (.frag pr.2))
+
+/-- In every fused scaffold two fragments are directly adjacent (no gap row between them) only if they are adjacent
+    inside one part (a stored result, as `to_scaffold` orients it, or a left-over scaffold), or the pair is the seam in
+    front of a left-over scaffold whose recorded input predecessor had NO gap and whose facing end is exactly the fragment
+    before the seam — i.e. the two contig ends were directly adjacent in the input (`input_predecessor_no_gap`);
+    the only other possibility is that no join gap is configured at all. -/
+theorem fuse_adjacent (b : Build) : ∀ s ∈ fuseByName b, ∀ pr ∈ adjPairs s.rows, AdjSrc b pr := by
+  intro s hs
+  refine (fuseByName_all (fun rows => ∀ pr ∈ adjPairs rows, AdjSrc b pr) b ?_ ?_ s hs).1
+  · intro r hr hadd _
+    have part : ∀ pr ∈ adjPairs r.o.toScaffoldRows, AdjSrc b pr := fun pr hp => Or.inl ⟨r, hr, hadd, hp⟩
+    refine ⟨fun pr hp => ?_, fun built _ hb pr hp => ?_⟩
+    · rw [append_empty_receiver] at hp; exact part pr hp
+    · rw [adjPairs_appendRows] at hp
+      simp only [List.mem_append] at hp
+      rcases hp with (hp | hp) | hp
+      · exact hb pr hp
+      · cases hj : b.joinGap with
+        | none => exact Or.inr (Or.inr (Or.inl hj))
+        | some j => rw [hj] at hp; cases hp
+      · exact part pr hp
+  · intro e he _
+    have part : ∀ pr ∈ adjPairs e.1.rows, AdjSrc b pr := fun pr hp => Or.inr (Or.inl ⟨e, he, hp⟩)
+    refine ⟨fun pr hp => ?_, fun built _ hb pr hp => ?_⟩
+    · rw [append_empty_receiver] at hp; exact part pr hp
+    · rw [adjPairs_appendRows] at hp
+      simp only [List.mem_append] at hp
+      rcases hp with (hp | hp) | hp
+      · exact hb pr hp
+      · cases hg : gapBeforeLeftover b.joinGap built e.2 with
+        | some g => rw [hg] at hp; cases hp
+        | none =>
+          rw [hg] at hp
+          simp only at hp
+          cases hj : b.joinGap with
+          | none => exact Or.inr (Or.inr (Or.inl hj))
+          | some j =>
+            rw [hj] at hg
+            obtain ⟨prev, last, hpred, hlast, hface⟩ := (gapBeforeLeftover_none_iff j built e.2).mp hg
+            obtain ⟨a, c⟩ := pr
+            obtain ⟨h1, h2⟩ := (mem_seam_iff _ _ _ _).mp hp
+            rw [hlast] at h1
+            cases h1
+            exact Or.inr (Or.inr (Or.inr ⟨e, he, prev, hpred, hface, h2⟩))
+      · exact part pr hp
+
+/-- If no stored result and no left-over scaffold begins or ends with a gap, then no fused scaffold begins or ends
+    with a gap, and none is empty. -/
+theorem fuse_no_terminal_gaps (b : Build)
+    (hstore : ∀ r ∈ b.store, r.added = true → NoTerminalGap r.o.rows)
+    (hextra : ∀ e ∈ b.extra, NoTerminalGap e.1.rows) :
+    ∀ s ∈ fuseByName b, NoTerminalGap s.rows ∧ s.rows ≠ [] := by
+  apply fuseByName_all NoTerminalGap
+  · intro r hr hadd hne
+    have h2 := noTerminalGap_toScaffoldRows _ (hstore r hr hadd)
+    have hne' := C01.toScaffoldRows_ne_nil _ hne
+    exact ⟨(noTerminalGap_appendRows _ _ _ (Or.inl rfl) h2 hne').1,
+           fun built _ hb => (noTerminalGap_appendRows _ _ _ (Or.inr hb) h2 hne').1⟩
+  · intro e he hne
+    have h2 := hextra e he
+    exact ⟨(noTerminalGap_appendRows _ _ _ (Or.inl rfl) h2 hne).1,
+           fun built _ hb => (noTerminalGap_appendRows _ _ _ (Or.inr hb) h2 hne).1⟩
+
+private def bx : Build :=
+  { namer := { autosomePrefix := [] }, nextOid := 4, joinGap := some jg, err := 1,
+    store := [ { o := { bait := f1, start := 1, stop := 10, rows := [.frag f1], name := ['S'] }, added := true } ],
+    extra := [ ({ name := ['S'], rows := [.frag f2] }, some (f1, none)),
+               ({ name := ['S'], rows := [.frag f3] }, none) ] }
+/-- a left-over contig whose input predecessor is the last built row, with no input gap, is re-joined without a gap;
+    an unrelated left-over is joined with the join gap -/
+example : (fuseByName bx).map (·.rows) = [[.frag f1, .frag f2, .gap jg, .frag f3]] := by decide
+example : (∀ r ∈ bx.store, r.added = true → NoTerminalGap r.o.rows) ∧ (∀ e ∈ bx.extra, NoTerminalGap e.1.rows) := by
+  simp [bx, NoTerminalGap]
+
+/-! ## left-over scaffolds -/
+
+/-- The left-over scaffold `add_missing_scaffolds_from_input` builds from one input scaffold: fragments directly
+    adjacent in it were directly adjacent rows of the input scaffold; every gap row is the input gap row directly in
+    front of the following left-over fragment, or the join gap; it neither starts nor ends with a gap. -/
+theorem leftover_adjacent (b : Build) (rows out : List Row) (first : Option Nat)
+    (h : missingRows b rows = .ok (out, first)) :
+    (∀ pr ∈ adjPairs out, pr ∈ adjPairs rows) ∧ (∀ g, Row.gap g ∈ out → GapOK b rows g) ∧ NoTerminalGap out := by
+  obtain ⟨_, h2, h3, h4, h5, _⟩ := missingRows_spec b rows out first h
+  exact ⟨h3, h2, h4, h5⟩
+
+/-! ## end to end: no output scaffold begins or ends with a gap -/
+
+/-- The invariant behind it: after `remap_to_input_assembly` no stored result and no left-over scaffold begins or ends
+    with a gap (`find_overlaps` skips terminal gaps, `discard_start/end` pop them, `trim_fragment` writes a fragment,
+    left-over scaffolds start and end with a fragment). -/
+theorem remap_to_input_no_terminal_gaps (input ptx : List Scaffold) (prefix_ : Str) (joinGap : Option Gap) (err : Int)
+    (b : Build) (h : remapToInput input ptx prefix_ joinGap err = .ok b) :
+    (∀ r ∈ b.store, NoTerminalGap r.o.rows) ∧ (∀ e ∈ b.extra, NoTerminalGap e.1.rows) :=
+  remapToInput_ntg input ptx prefix_ joinGap err b h
+
+/-- C07, second clause, for ALL inputs on which remapping completes: no scaffold of any output assembly begins or
+    ends with a gap row. -/
+theorem remap_no_terminal_gaps (input ptx : List Scaffold) (prefix_ : Str) (joinGap : Option Gap) (err : Int)
+    (outs : List OutAsm) (stats : Stats) (h : remap input ptx prefix_ joinGap err = .ok (outs, stats)) :
+    ∀ a ∈ outs, ∀ s ∈ a.scaffolds, NoTerminalGap s.rows := by
+  unfold remap at h
+  simp only [bind, Except.bind] at h
+  split at h
+  · cases h
+  · next b hb =>
+    obtain ⟨hst, hex⟩ := remapToInput_ntg _ _ _ _ _ _ hb
+    intro a ha s hs
+    rcases assembliesFused_rows input b outs stats h a ha s hs with e | ⟨s0, hs0, e⟩
+    · rw [e]; exact noTerminalGap_nil
+    · rw [e]; exact (fuse_no_terminal_gaps b (fun r hr _ => hst r hr) hex s0 hs0).1
+
+private def inA : Scaffold := { name := ['A'], rows := [.frag f1, .gap g7, .frag f2] }
+private def inB : Scaffold := { name := ['B'], rows := [.frag { f3 with strand := 1 }] }
+private def ptx1 : Scaffold :=
+  { name := ['S','1'], rows := [.frag { oid := 10, name := ['A'], start := 1, stop := 27, strand := 1, tags := [sPainted] }] }
+/-- remapping does complete on a small example (one painted Pretext scaffold covering scaffold A, B left over) -/
+example : (remap [inA, inB] [ptx1] [] (some jg) 1).toOption.map (fun r => r.1.map (fun a => a.scaffolds.map (·.rows))) =
+    some [[[.frag f1, .gap g7, .frag f2], [.frag { f3 with strand := 1 }]]] := by decide +kernel
+
 end AgpTpf.C07
